@@ -347,7 +347,7 @@ EXPLANATION = ("BCUR transport: symbolic contracts for the CBOR byte-string wrap
                "an exhaustive table shows single substitutions are caught by the bc32 checksum for every length.")
 CATEGORY = "other"
 LEVEL_TEXT = ("Mixed. Deductive (pyvc + z3, all inputs): cbor_encode / cbor_decode on every path and every length class (this is where the non-RFC 4-byte head is found), "
-              "cbor round trip, convertbits 8->5 for 1/2/5/20 bytes and 5->8 incl. the zero-padding rule, bech32_polymod step. Exhaustive tables with the real polymod: single "
+              "cbor round trip, convertbits 8->5 for 1/2/5/20 bytes and 5->8 incl. the zero-padding rule, bech32_polymod (the bc32 checksum register) for symbol lists of every length by loop invariant against spec.text.polymod_rec. Exhaustive tables with the real polymod: single "
               "substitutions in bc32 strings. NOT proved: everything that builds or parses text (bc32encode/bc32decode, bcur_encode/decode, BCURSingle, BCURMulti): pyvc has no "
               "symbolic strings; these are `undecided` symbolically and decided on enumerated/bounded inputs only (all boundaries, all chunk sizes 1..2000 on sampled payloads, "
               "complete tamper catalogue on <= 5-part sets).")
